@@ -36,6 +36,19 @@ type c02Policy struct {
 	Name   string    `json:"name"`
 	Rules  []c02Rule `json:"rules"`
 	Exists bool      `json:"exists"`
+	// the two opt-ins of a templated policy (sys/policies/acl parameters): values substituted for a
+	// template expression of THIS policy may contain '/' resp. '*' and '+'
+	AllowSlashes   bool `json:"allow_slashes_in_identity_templates,omitempty"`
+	AllowWildcards bool `json:"allow_wildcards_in_identity_templates,omitempty"`
+}
+
+func (p *c02Policy) templated() bool {
+	for _, r := range p.Rules {
+		if strings.Contains(r.Pat, "{{") {
+			return true
+		}
+	}
+	return false
 }
 
 func (p *c02Policy) HCL() string {
@@ -67,9 +80,122 @@ type c02Mount struct {
 type c02Entity struct {
 	ID       string   `json:"-"`
 	NS       string   `json:"ns"`
-	Name     string   `json:"name"`
+	Name     string   `json:"name"` // harness label
 	Disabled bool     `json:"disabled"`
 	Policies []string `json:"policies,omitempty"`
+	// identity values a templated policy can read
+	EName     string            `json:"entity_name,omitempty"`
+	Meta      map[string]string `json:"entity_metadata,omitempty"`
+	AliasAcc  string            `json:"alias_mount_accessor,omitempty"`
+	AliasName string            `json:"alias_name,omitempty"`
+	AliasID   string            `json:"-"`
+	Groups    []*c02Group       `json:"groups,omitempty"`
+}
+
+type c02Group struct {
+	ID   string            `json:"-"`
+	Name string            `json:"name"`
+	Meta map[string]string `json:"metadata,omitempty"`
+}
+
+// c02Render substitutes the identity template expressions of a policy path. Documented parameters
+// (concepts/policies.mdx, "Templated policies"): identity.entity.{id,name,metadata.<k>},
+// identity.entity.aliases.<mount accessor>.{id,name}, identity.groups.ids.<id>.{name,metadata.<k>},
+// identity.groups.names.<name>.{id,metadata.<k>}. The rendering of a path block fails - and the
+// block then grants nothing, the other blocks of the policy stay - when there is no entity, a
+// value is missing or an empty string, or the value contains a character the policy does not opt
+// in to: '/' unless allow_slashes_in_identity_templates, '*' and '+' unless
+// allow_wildcards_in_identity_templates (api/system/policies.mdx; sdk/helper/identitytpl
+// "template substitution contains forbidden value"; policy.parsePaths skips the block).
+func c02Render(pat string, e *c02Entity, blockSlash, blockWild bool) (string, bool) {
+	parts := strings.Split(pat, "{{")
+	if len(parts) == 1 {
+		return pat, true
+	}
+	var b strings.Builder
+	b.WriteString(parts[0])
+	for _, piece := range parts[1:] {
+		sp := strings.Split(piece, "}}")
+		if len(sp) != 2 || e == nil {
+			return "", false
+		}
+		val, ok := c02TemplateValue(strings.TrimSpace(sp[0]), e)
+		if !ok {
+			return "", false
+		}
+		if (blockSlash && strings.Contains(val, "/")) || (blockWild && strings.ContainsAny(val, "*+")) {
+			return "", false
+		}
+		b.WriteString(val)
+		b.WriteString(sp[1])
+	}
+	return b.String(), true
+}
+
+func c02GroupIDSelectorWithDot(pat string, e *c02Entity) bool {
+	if e == nil {
+		return false
+	}
+	for _, g := range e.Groups {
+		if strings.Contains(g.ID, ".") && strings.Contains(pat, "identity.groups.ids."+g.ID+".") {
+			return true
+		}
+	}
+	return false
+}
+
+func c02TemplateValue(sel string, e *c02Entity) (string, bool) {
+	nonEmpty := func(s string) (string, bool) { return s, s != "" }
+	fromMap := func(m map[string]string, k string) (string, bool) { v, ok := m[k]; return v, ok }
+	switch {
+	case sel == "identity.entity.id":
+		return nonEmpty(e.ID)
+	case sel == "identity.entity.name":
+		return nonEmpty(e.EName)
+	case strings.HasPrefix(sel, "identity.entity.metadata."):
+		return fromMap(e.Meta, strings.TrimPrefix(sel, "identity.entity.metadata."))
+	case strings.HasPrefix(sel, "identity.entity.aliases."):
+		sp := strings.SplitN(strings.TrimPrefix(sel, "identity.entity.aliases."), ".", 2)
+		if len(sp) != 2 || sp[0] != e.AliasAcc || e.AliasAcc == "" {
+			return "", false
+		}
+		switch sp[1] {
+		case "name":
+			return nonEmpty(e.AliasName)
+		case "id":
+			return nonEmpty(e.AliasID)
+		}
+		return "", false
+	case strings.HasPrefix(sel, "identity.groups.ids."), strings.HasPrefix(sel, "identity.groups.names."):
+		byID := strings.HasPrefix(sel, "identity.groups.ids.")
+		sp := strings.SplitN(strings.TrimPrefix(strings.TrimPrefix(sel, "identity.groups.ids."), "identity.groups.names."), ".", 2)
+		if len(sp) != 2 {
+			return "", false
+		}
+		// the accessor part of a group selector may itself contain dots (ids of child namespaces):
+		// try every split
+		full := strings.TrimPrefix(strings.TrimPrefix(sel, "identity.groups.ids."), "identity.groups.names.")
+		for _, g := range e.Groups {
+			key := g.Name
+			if byID {
+				key = g.ID
+			}
+			if !strings.HasPrefix(full, key+".") {
+				continue
+			}
+			rest := full[len(key)+1:]
+			switch {
+			case rest == "name" && byID:
+				return nonEmpty(g.Name)
+			case rest == "id" && !byID:
+				return nonEmpty(g.ID)
+			case strings.HasPrefix(rest, "metadata."):
+				return fromMap(g.Meta, strings.TrimPrefix(rest, "metadata."))
+			}
+		}
+		return "", false
+	}
+	return "", false
 }
 
 type c02Tok struct {
@@ -337,7 +463,28 @@ func (w *c02World) rulesFor(t *c02Tok, now time.Time) (out, withExpired map[stri
 			continue
 		}
 		for _, r := range p.Rules {
-			abs := p.NS + r.Pat
+			pat := r.Pat
+			if strings.Contains(pat, "{{") {
+				if c02GroupIDSelectorWithDot(pat, t.Entity) {
+					// identity.groups.ids.<group id>.<field>: the id of a group of a child namespace itself
+					// contains a dot; how such a selector is split is not documented
+					ambiguous = true
+					continue
+				}
+				// rendered with the token's entity and THIS policy's opt-ins only
+				rendered, ok := c02Render(pat, t.Entity, !p.AllowSlashes, !p.AllowWildcards)
+				if !ok {
+					continue
+				}
+				pat = strings.TrimPrefix(rendered, "/")
+				if strings.Contains(p.NS+pat, "+*") {
+					// documented as invalid in a policy ('+*' is forbidden); what a substituted value that
+					// produces it does to the rest of the token's policies is outside the reference
+					ambiguous = true
+					continue
+				}
+			}
+			abs := p.NS + pat
 			add(withExpired, abs, r.Caps)
 			if !r.Expire.IsZero() {
 				timed[abs] = true
@@ -370,7 +517,7 @@ func (w *c02World) aclAllows(t *c02Tok, reqNS, abs, op string, sudo bool, now ti
 	}
 	rules, withExpired, timed, ambiguous := w.rulesFor(t, now)
 	if ambiguous {
-		return "unknown", "a path block of the token's policies is within a second of its expiration"
+		return "unknown", "a path block of the token's policies is within a second of its expiration, or a template value renders an invalid '+*'"
 	}
 	res, why := c02Decide(rules, abs, op, capName, sudo)
 	if res == "deny" {
@@ -408,6 +555,20 @@ func (w *c02World) capsOf(t *c02Tok, reqNS, abs string, now time.Time) ([]string
 
 // c02Decide applies the documented matching to one rule collection.
 func c02Decide(rules map[string]map[string]bool, abs, op, capName string, sudo bool) (string, string) {
+	// a '*' that a template value put somewhere else than at the end of a pattern is an ordinary
+	// character; the documented priority rules do not say how such a pattern ranks against others
+	nmatch, midStar := 0, false
+	for pat := range rules {
+		if ok, _ := c02Match(pat, abs); ok {
+			nmatch++
+			if strings.Contains(strings.TrimSuffix(pat, "*"), "*") {
+				midStar = true
+			}
+		}
+	}
+	if nmatch > 1 && midStar {
+		return "unknown", "several patterns match and one carries a literal '*' from a template value (ranking outside the reference)"
+	}
 	caps, pat, ok := c02Winner(rules, abs)
 	if (op == "list" || op == "scan") && strings.HasSuffix(abs, "/") && !c02HasExact(rules, abs) {
 		trim := strings.TrimSuffix(abs, "/")
